@@ -243,6 +243,55 @@ fn project(storage: &Storage, signer: &Device<MockSigner>, name: &str, vis: Visi
     id
 }
 
+/// Make the identity document of a repository unreadable the way a node can end up with it: the
+/// identity head `refs/rad/id` is advanced to a new revision (child of the current one) whose document
+///   "v2"      declares an identity version this node does not support ("version": 2),
+///   "corrupt" is not JSON,
+///   "nodoc"   is missing from the revision's tree (a dangling rad/id).
+/// Returns (readable head, unreadable head); the caller moves `refs/rad/id` between them.
+fn unreadable_revision(storage: &Storage, rid: RepoId, kind: &str) -> (radicle::git::Oid, radicle::git::Oid) {
+    let repo = storage.repository(rid).unwrap();
+    let good = repo.identity_head().unwrap();
+    let raw = repo.raw();
+    let commit = raw.find_commit(*good).unwrap();
+    let tree = commit.tree().unwrap();
+    let embeds = raw.find_tree(tree.get_name("embeds").unwrap_or_else(|| fatal("set-up: no embeds/ in identity revision")).id()).unwrap();
+    let blob = raw.find_blob(embeds.get_name("radicle.json").unwrap_or_else(|| fatal("set-up: no radicle.json")).id()).unwrap();
+    let new_tree = match kind {
+        "nodoc" => raw.treebuilder(None).unwrap().write().unwrap(),
+        _ => {
+            let content: Vec<u8> = if kind == "v2" {
+                let mut v: Value = serde_json::from_slice(blob.content()).unwrap();
+                v.as_object_mut().unwrap().insert("version".into(), json!(2));
+                serde_json::to_vec(&v).unwrap()
+            } else {
+                b"{ \"payload\": not json".to_vec()
+            };
+            let b = raw.blob(&content).unwrap();
+            let mut eb = raw.treebuilder(Some(&embeds)).unwrap();
+            eb.insert("radicle.json", b, 0o100644).unwrap();
+            let e = eb.write().unwrap();
+            let mut tb = raw.treebuilder(Some(&tree)).unwrap();
+            tb.insert("embeds", e, 0o040000).unwrap();
+            tb.write().unwrap()
+        }
+    };
+    let new_tree = raw.find_tree(new_tree).unwrap();
+    let sig = commit.author();
+    let bad = raw.commit(None, &sig, &sig, "identity revision this node cannot read", &new_tree, &[&commit]).unwrap();
+    (good, bad.into())
+}
+
+fn set_identity_head(storage: &Storage, rid: RepoId, to: radicle::git::Oid, expect_ok: bool) {
+    let repo = storage.repository(rid).unwrap();
+    repo.set_identity_head_to(to).unwrap_or_else(|e| fatal(&format!("set identity head: {e}")));
+    // the set-up is what the model says it is
+    let loads = repo.identity_doc().is_ok() && matches!(storage.get(rid), Ok(Some(_)));
+    if loads != expect_ok {
+        fatal(&format!("set-up: identity document of {rid} loads = {loads}, wanted {expect_ok}"));
+    }
+}
+
 // ------------------------------------------------------------------------------------------------
 // The serve step on in-memory streams
 
@@ -701,15 +750,18 @@ struct Class {
     def: String,
     pol: String,
     present: bool,
+    docok: bool,
     private: bool,
     allow: Vec<String>,
     rid: Option<RepoId>,
+    /// (readable, unreadable) identity heads, once an unreadable revision has been made
+    heads: Option<(radicle::git::Oid, radicle::git::Oid)>,
 }
 
 impl Class {
-    fn key(def: &str, pol: &str, present: bool, private: bool, allow: &[String]) -> String {
+    fn key(def: &str, pol: &str, present: bool, docok: bool, private: bool, allow: &[String]) -> String {
         if present {
-            format!("{def}|{pol}|present|{private}|{}", allow.join("+"))
+            format!("{def}|{pol}|present|{}|{private}|{}", if docok { "doc-ok" } else { "doc-unreadable" }, allow.join("+"))
         } else {
             format!("{def}|{pol}|absent")
         }
@@ -848,18 +900,21 @@ fn mode_e2e(args: &Args) {
         let def = c["def"].as_str().unwrap();
         let pol = c["pol"]["R1"].as_str().unwrap();
         let present = c["present"]["R1"].as_bool().unwrap();
+        let docok = c["docok"]["R1"].as_bool().unwrap_or(present);
         let private = c["private"]["R1"].as_bool().unwrap();
         let allow = strs(&c["allow"]["R1"]);
-        let key = Class::key(def, pol, present, private, &allow);
+        let key = Class::key(def, pol, present, docok, private, &allow);
         let ci = *index.entry(key).or_insert_with(|| {
             classes.push(Class {
                 name: format!("R{}", classes.len() + 3),
                 def: def.into(),
                 pol: pol.into(),
                 present,
+                docok,
                 private,
                 allow: allow.clone(),
                 rid: None,
+                heads: None,
             });
             classes.len() - 1
         });
@@ -920,7 +975,7 @@ fn mode_e2e(args: &Args) {
         }
     }
     // --- policies
-    for c in &classes {
+    for c in classes.iter_mut() {
         let (_, node) = responders.iter_mut().find(|(d, _)| *d == c.def).unwrap();
         let rid = c.rid.unwrap();
         match c.pol.as_str() {
@@ -940,6 +995,14 @@ fn mode_e2e(args: &Args) {
             if doc.is_private() != c.private {
                 fatal("set-up: visibility mismatch");
             }
+            if !c.docok {
+                // one kind of damage per class: unsupported version for private repositories without an allow
+                // list, a corrupt document for those with one, a dangling rad/id for public ones
+                let kind = if !c.private { "nodoc" } else if c.allow.is_empty() { "v2" } else { "corrupt" };
+                let (good, bad) = unreadable_revision(&node.storage, rid, kind);
+                set_identity_head(&node.storage, rid, bad, false);
+                c.heads = Some((good, bad));
+            }
         } else if node.storage.contains(&rid).unwrap_or(true) {
             fatal("set-up: absent repository exists");
         }
@@ -950,6 +1013,9 @@ fn mode_e2e(args: &Args) {
     let mut inconclusive: Vec<String> = vec![];
     let (mut n_served, mut n_refused, mut n_cells) = (0usize, 0usize, 0usize);
     let mut current: HashMap<String, String> = classes.iter().map(|c| (c.name.clone(), c.pol.clone())).collect();
+    let mut doc_now: HashMap<String, bool> = classes.iter().map(|c| (c.name.clone(), c.docok)).collect();
+    let mut heads: HashMap<String, (radicle::git::Oid, radicle::git::Oid)> =
+        classes.iter().filter_map(|c| c.heads.map(|h| (c.name.clone(), h))).collect();
     for (def, node) in responders {
         let home = node.home.clone();
         let resp = node.spawn();
@@ -962,7 +1028,8 @@ fn mode_e2e(args: &Args) {
             Value::Object(mine.iter().map(|c| (c.name.clone(), f(c))).collect())
         };
         trace.emit(&json!({"k": "world", "def": def,
-            "pol": obj(&|c| json!(c.pol)), "present": obj(&|c| json!(c.present)), "private": obj(&|c| json!(c.private)),
+            "pol": obj(&|c| json!(c.pol)), "present": obj(&|c| json!(c.present)), "docok": obj(&|c| json!(c.present && c.docok)),
+            "private": obj(&|c| json!(c.private)),
             "allow": obj(&|c| json!(c.allow)), "delegates": obj(&|c| if c.present { json!(["D"]) } else { json!([]) })}));
         let mut seeded: HashMap<(String, String), ()> = HashMap::new();
         let mut one = |n: &str, c: &Class, expect: bool, reqs: &mut Vec<(String, NH)>| -> Obs {
@@ -982,7 +1049,7 @@ fn mode_e2e(args: &Args) {
             let mut class = "ok";
             if let Some(why) = &o.inconclusive {
                 class = "inconclusive";
-                inconclusive.push(format!("{} n={n}: {why}", Class::key(&c.def, &c.pol, c.present, c.private, &c.allow)));
+                inconclusive.push(format!("{} n={n}: {why}", Class::key(&c.def, &c.pol, c.present, c.docok, c.private, &c.allow)));
             } else if !expect && (served || o.ok) {
                 class = "served-although-not-allowed";
             } else if !expect && o.has && !o.had {
@@ -998,7 +1065,7 @@ fn mode_e2e(args: &Args) {
                 n_refused += 1;
             }
             out.emit(&json!({"kind": "cell", "class": class, "def": c.def, "pol": c.pol, "present": c.present,
-                "private": c.private, "allow": c.allow, "n": n, "expected": case["dec"], "served": served,
+                "docok": c.present && c.docok, "private": c.private, "allow": c.allow, "n": n, "expected": case["dec"], "served": served,
                 "events": o.served_events, "transmitted": o.transmitted, "requester_ok": o.ok, "had": o.had, "has": o.has,
                 "responder_result": o.responder_result, "requester_reason": o.reason, "ms": o.ms as u64, "rid": c.rid.unwrap().to_string()}));
             if o.inconclusive.is_none() {
@@ -1008,7 +1075,22 @@ fn mode_e2e(args: &Args) {
         // policies change underneath, requests keep coming
         for _ in 0..dyn_steps {
             let c = mine[rng.usize(..mine.len())];
-            if rng.u8(..10) < 4 {
+            let what = rng.u8(..10);
+            if what < 2 {
+                // the identity head moves to a revision this node cannot read, or back
+                if !c.present {
+                    continue;
+                }
+                let rid = c.rid.unwrap();
+                let (good, bad) = *heads.entry(c.name.clone()).or_insert_with(|| {
+                    let kind = ["v2", "corrupt", "nodoc"][rng.usize(..3)];
+                    unreadable_revision(&resp.storage, rid, kind)
+                });
+                let to_ok = !doc_now[&c.name];
+                set_identity_head(&resp.storage, rid, if to_ok { good } else { bad }, to_ok);
+                doc_now.insert(c.name.clone(), to_ok);
+                trace.emit(&json!({"k": "doc", "rid": c.name, "ok": to_ok}));
+            } else if what < 5 {
                 let p = ["allow", "block", "none"][rng.usize(..3)];
                 let rid = c.rid.unwrap();
                 let r = match p {
@@ -1026,7 +1108,7 @@ fn mode_e2e(args: &Args) {
                 let pol = current[&c.name].as_str();
                 let seeded_now = pol == "allow" || (pol == "none" && def == "allow");
                 let visible = !c.private || n == "D" || c.allow.iter().any(|a| a == n);
-                let expect = seeded_now && c.present && visible;
+                let expect = seeded_now && c.present && doc_now[&c.name] && visible;
                 let o = one(n, c, expect, &mut req_handles);
                 let served = o.served_events > 0;
                 if let Some(why) = &o.inconclusive {
